@@ -53,6 +53,7 @@ let run_case ~(dflt : kind) (c : case) =
     match w with
     | "keys" :: ks -> keys := Array.append !keys (Array.of_list (L.map z_of_string ks))
     | ["kind"; k] -> kd := kind_of_string k
+    | ["vsign"; _] -> ()
     | ["cmpmode"; _] -> ()   (* magnitude of the C comparator's results: only the sign matters *)
     | _ ->
       let key n = let i = int_of_nat n in if i < Array.length !keys then !keys.(i) else BinNums.Z0 in
@@ -118,6 +119,7 @@ let run_case_links ~(dflt : kind) (c : case) =
     match w with
     | "keys" :: ks -> keys := Array.append !keys (Array.of_list (L.map z_of_string ks))
     | ["kind"; k] -> kd := kind_of_string k
+    | ["vsign"; _] -> ()
     | ["cmpmode"; _] -> ()
     | _ ->
       let key n = let i = int_of_nat n in if i < Array.length !keys then !keys.(i) else BinNums.Z0 in
